@@ -25,3 +25,32 @@ Proof.
   unfold tag_escape in *. cbn [flat_map].
   rewrite tag_unescape_escape1, IH. reflexivity.
 Qed.
+
+(* ---- Get after Set ------------------------------------------------------------------- *)
+Require Import OrderLemmas AMapLemmas.
+
+(* A Set that reports success on a non-nil map stores the value: Get returns exactly the
+   value given to Set, every other key is unchanged. *)
+Lemma tags_get_set : forall (m : tagmap) k v t',
+  tags_set (Some m) k v = Some t' ->
+  tags_get t' k = Some v /\ (forall k', k' <> k -> tags_get t' k' = tags_get (Some m) k').
+Proof.
+  intros m k v t' H. unfold tags_set in H.
+  destruct (negb (valid_tag k)); [discriminate|].
+  destruct (Nat.ltb 0 (length (tag_escape v)) && negb (valid_tag_value (tag_escape v)))%bool; [discriminate|].
+  destruct (Nat.ltb max_tag_length _); [discriminate|].
+  inversion H; subst t'. split.
+  - cbn [tags_get]. rewrite alookup_aset_eq. cbn [option_map]. rewrite tag_unescape_escape. reflexivity.
+  - intros k' Hne. cbn [tags_get]. rewrite alookup_aset_neq by congruence. reflexivity.
+Qed.
+
+(* The hypothesis is satisfiable: all five escapable characters in one value. *)
+Example tags_set_example :
+  exists t', tags_set (Some []) (bs "+draft/k") [59; 32; 92; 13; 10; 120] = Some t'.
+Proof. vm_compute. eexists; reflexivity. Qed.
+
+(* The nil receiver: the Go method allocates a map only it can see.  Set reports success
+   and the caller's Tags are still nil, so Get finds nothing (finding tags-set-nil). *)
+Lemma tags_set_nil_loses_value :
+  exists k v t', tags_set None k v = Some t' /\ tags_get t' k = None.
+Proof. exists (bs "a"), (bs "b"), None. vm_compute. split; reflexivity. Qed.
